@@ -291,6 +291,8 @@ def witnesses(job, tier):
         val = lambda v: float(m.eval(v, model_completion=True).as_fraction())
         inp = {"mixture": name, "T": T, "x": x, "P1": val(P1), "P2": val(P2), "Pp": val(p), "prec": val(prec)}
         job.refute_concretely(oid, R_, inp)
+        # the same cycle at the finest admissible precision: the evaluation budget must not grow with 1 / precision
+        job.refute_concretely(oid + "/finest_precision", R_, dict(inp, prec=1e-8))
     # seeded near-equilibrium states in permeate-temperature mode (cannot be solved for through the UF abstraction)
     for (name, T, x) in states[:3]:
         for dT in (0.5, 2.0):
